@@ -31,7 +31,9 @@ def generate(rng, tier):
         dr, r, q = matched(rng, N)
         for (d, X, Y) in PAIRS:
             xin, xout = (q, r) if d == 0 else (r, q)
-            kind = rng.choice(["random", "ints", "smooth", "wide"])
+            kind = rng.choice(["random", "ints", "smooth", "wide", "tiny"])
+            if kind == "tiny" and X == 0:
+                kind = "smooth"     # 1 + 1e-10 cannot carry the signal through S = F/Q + 1 in binary64: rounding, not the property
             _, y = F.data(rng, xin, kind)
             y[0] = 0.0
             y[-1] = 0.0
@@ -44,24 +46,29 @@ def generate(rng, tier):
             cases.append({"dir": d, "X": X, "Y": Y, "xin": xin, "yin": y, "xout": xout, "dy": None, "mat": mat,
                           "lorch": False, "omitted": False, "channel": 0, "matched": True, "N": N, "dr": dr,
                           "desc": {"method": "%s_to_%s" % (names_in[X], names_out[Y]), "N": N, "matched": True, "data": kind}})
-    # closed-form family on three refinement levels (both directions)
-    for i in range(3 if tier == "quick" else 10):
+    # closed-form family on three refinement levels (both directions), uniform and smoothly graded grids
+    for i in range(4 if tier == "quick" else 12):
         terms = [(rng.uniform(0.5, 3.0) * rng.sgn(), rng.uniform(0.3, 2.0)) for _ in range(rng.choice([1, 2, 3]))]
+        scale = rng.choice([1.0, 1.0, 4e-9])          # the same functions in other units
+        terms = [(A * scale, a) for A, a in terms]
+        graded = i % 2 == 1
         for d in (0, 1):
-            for level, n in enumerate([100, 200, 400]):
-                if d == 1:   # r -> Q : G(r) = sum A r exp(-a r^2) on [0, 12]
-                    xin = [12.0 * j / n for j in range(n + 1)]
+            L_ = 24.0 if d == 0 else 12.0
+            levels = []
+            for n in (100, 200, 400):
+                u = [j / n for j in range(n + 1)]
+                xin = [L_ * (v ** 1.6 if graded else v) for v in u]
+                if d == 1:   # r -> Q : G(r) = sum A r exp(-a r^2)
                     y = [sum(A * v * math.exp(-a * v * v) for A, a in terms) for v in xin]
-                    X, Y = 1, 1
-                else:        # Q -> r : F(Q) = sum A sqrt(pi) Q/(4 a^1.5) exp(-Q^2/4a) on [0, 24]
-                    xin = [24.0 * j / n for j in range(n + 1)]
+                else:        # Q -> r : F(Q) = sum A sqrt(pi) Q/(4 a^1.5) exp(-Q^2/4a)
                     y = [sum(A * math.sqrt(math.pi) * v / (4 * a ** 1.5) * math.exp(-v * v / (4 * a)) for A, a in terms) for v in xin]
-                    X, Y = 1, 1
-                xout = [0.0, 0.3, 0.9, 1.7, 2.6]
-                cases.append({"dir": d, "X": X, "Y": Y, "xin": xin, "yin": y, "xout": xout, "dy": None,
-                              "mat": {"rho": 0.05, "bcoh": 1.0, "btot": 1.0}, "lorch": False, "omitted": False, "channel": 0,
-                              "closed": {"terms": terms, "n": n, "level": level},
-                              "desc": {"method": "F_to_G" if d == 0 else "G_to_F", "closed_form": True, "level": level, "terms": len(terms)}})
+                levels.append({"xin": xin, "yin": y})
+            xout = [0.0, 0.3, 0.9, 1.7, 2.6]
+            cases.append({"dir": d, "X": 1, "Y": 1, "xin": levels[0]["xin"], "yin": levels[0]["yin"], "xout": xout, "dy": None,
+                          "mat": {"rho": 0.05, "bcoh": 1.0, "btot": 1.0}, "lorch": False, "omitted": False, "channel": 0,
+                          "closed": {"terms": terms, "levels": levels, "L": L_, "graded": graded},
+                          "desc": {"method": "F_to_G" if d == 0 else "G_to_F", "closed_form": True, "graded_grid": graded,
+                                   "terms": len(terms), "tiny_amplitude": scale != 1.0}})
     # unmatched grids (correspondence only)
     for i in range(10 if tier == "quick" else 60):
         d, X, Y = PAIRS[i % 4]
@@ -71,8 +78,20 @@ def generate(rng, tier):
     return cases
 
 
-run_impl = F.run_named
-to_coq = F.named_to_coq
+def run_impl(pystog, case):
+    res = F.run_named(pystog, case)
+    if "closed" in case:
+        res["levels"] = []
+        for lv in case["closed"]["levels"]:
+            c2 = dict(case, xin=lv["xin"], yin=lv["yin"])
+            res["levels"].append(F.run_named(pystog, c2))
+    return res
+
+
+def to_coq(case, res):
+    if "closed" in case and "levels" in res:
+        return [("chk_named", F.named_to_coq(dict(case, xin=lv["xin"], yin=lv["yin"]), r)) for lv, r in zip(case["closed"]["levels"], res["levels"])]
+    return F.named_to_coq(case, res)
 
 
 def nontrivial(case, res):
@@ -95,13 +114,26 @@ def oracle(pystog, case, res):
         y = np.array(case["yin"], float)
         N = case["N"]
         base = 1.0 if (d, X) in ((0, 0), (1, 0)) else 0.0
-        amp = np.abs(y - base).max() + 1e-300
+        amp = np.abs(y - base).max() + 1e-6 * np.abs(y).max() + 1e-300   # 1e-9 * 1e-6 = a few ulp of the data themselves
         x = np.array(case["xin"], float)
         with np.errstate(all="ignore"):
             # S/g forms divide by x: error amplification 1/x (x) and the forward multiplication by x
             w = np.where(x > 0, 1.0, 0.0)
             scale = amp * (N + 1) * (x.max() / np.where(x > 0, x, 1.0) if base == 1.0 else 1.0)
         err = np.abs(np.asarray(y2, float) - y) * w
+        floor = 0.0
+        if base == 1.0:
+            # the intermediate function is stored as 1 + (small): its own rounding (one ulp of ~1) propagated through the way back
+            xo_ = np.array(case["xout"], float)
+            wts = np.abs(np.gradient(xo_)) if len(xo_) > 1 else np.array([0.0])
+            rho_ = case["mat"]["rho"]
+            xs_ = np.where(x > 0, x, 1.0)
+            with np.errstate(all="ignore"):
+                if d == 1:   # g -> S -> g : dS = eps, back through (2/pi) sum w Q dS / (4 pi rho r)
+                    floor = 2 / math.pi * float((wts * np.abs(xo_)).sum()) * 2.3e-16 / (4 * math.pi * rho_ * xs_)
+                else:        # S -> g -> S : dg = eps, back through 4 pi rho sum w r dg / Q
+                    floor = 4 * math.pi * rho_ * float((wts * np.abs(xo_)).sum()) * 2.3e-16 / xs_
+        scale = scale + 1e9 * 16 * floor
         if (err > 1e-9 * scale).any():
             i = int(np.argmax(err / scale))
             return "%s then back: %r != original %r at index %d (N=%d)" % (case["desc"]["method"], float(y2[i]), float(y[i]), i, N)
@@ -109,17 +141,24 @@ def oracle(pystog, case, res):
             return "conventional value 1 not returned at x = 0"
         return None
     if "closed" in case:
-        terms, n = case["closed"]["terms"], case["closed"]["n"]
+        terms = case["closed"]["terms"]
         xo = np.array(case["xout"], float)
         if case["dir"] == 1:
             want = sum(A * math.sqrt(math.pi) * xo / (4 * a ** 1.5) * np.exp(-xo * xo / (4 * a)) for A, a in terms)
-            h = 12.0 / n
         else:
             want = sum(A * xo * np.exp(-a * xo * xo) for A, a in terms)
-            h = 24.0 / n
         amp = sum(abs(A) for A, _ in terms)
-        err = np.abs(np.array(res["yout"]) - want).max()
-        # trapezoid error for these smooth, end-decaying integrands is far below h^2 * amp * 10
-        if err > 10 * amp * h * h + 1e-9 * amp:
-            return "%s differs from the closed-form partner by %.3g at step %.3g (allowed %.3g)" % (case["desc"]["method"], err, h, 10 * amp * h * h)
+        errs = []
+        for lv, r in zip(case["closed"]["levels"], res["levels"]):
+            x = np.array(lv["xin"])
+            hmax = float(np.diff(x).max())
+            err = float(np.abs(np.array(r["yout"]) - want).max())
+            errs.append(err)
+            # trapezoid error for these smooth, end-decaying integrands is far below 10 amp hmax^2
+            if err > 10 * amp * hmax * hmax + 1e-9 * amp:
+                return "%s differs from the closed-form partner by %.3g at max step %.3g (allowed %.3g)" % (case["desc"]["method"], err, hmax, 10 * amp * hmax * hmax)
+        # discretisation accuracy: second order -- two halvings of the step must reduce the error ~16x (at least 6x), unless already at rounding level
+        if errs[0] > 1e-7 * amp and errs[2] > errs[0] / 6 + 1e-10 * amp:
+            return "%s: error against the closed-form partner does not decrease at second order under refinement (%.3g, %.3g, %.3g on %s grids)" % (
+                case["desc"]["method"], errs[0], errs[1], errs[2], "graded" if case["closed"]["graded"] else "uniform")
     return None
